@@ -85,6 +85,7 @@ struct Actor
   std::string park_reason;
   bool stall_armed{false};
   uint64_t last_writer_bytes{0};
+  int in_call_logger{-1}; // logger (gid) of the public call this actor is parked in
   std::string result; // filled by the job
   std::thread th;
   bool alive{true};
@@ -192,13 +193,19 @@ static long parse_id(std::string_view msg)
   return v;
 }
 
+static void forget_sink(int sid);
+
 struct RecSink : quill::Sink
 {
   int sid;
   std::vector<int> wthrow, fthrow; // 1-based call numbers that throw
   int wcalls{0}, fcalls{0};
   explicit RecSink(int s) : sid(s) {}
-  ~RecSink() override { g_events.push_back("sinkdtor:" + std::to_string(sid)); }
+  ~RecSink() override
+  {
+    g_events.push_back("sinkdtor:" + std::to_string(sid));
+    forget_sink(sid);
+  }
   void write_log(quill::MacroMetadata const*, uint64_t ts, std::string_view, std::string_view, std::string const&,
                  std::string_view, quill::LogLevel lvl, std::string_view, std::string_view,
                  std::vector<std::pair<std::string, std::string>> const*, std::string_view msg, std::string_view) override
@@ -275,6 +282,7 @@ static std::map<int, std::unique_ptr<Actor>> g_actors;
 static std::map<int, uint32_t> g_actor_tid;     // actor -> quill thread id (for canonical notifier text)
 static std::map<int, std::shared_ptr<RecSink>> g_sinks_keepalive; // dropped when the script says so
 static std::map<int, RecSink*> g_sinks;
+static void forget_sink(int sid) { g_sinks.erase(sid); }
 static std::map<int, LoggerT*> g_loggers;
 static std::map<int, std::vector<int>> g_logger_sinks;
 static long g_next_id = 0;
@@ -451,7 +459,9 @@ static std::string exec_op(std::vector<std::string> const& w)
   {
     Actor* a = actor_of(w[1]);
     if (!a || a->st != Actor::PARKED) { return "noop"; }
-    return finish_actor(*a, a->drive(nullptr));
+    auto const str = a->drive(nullptr);
+    if (str != Actor::PARKED) { a->in_call_logger = -1; }
+    return finish_actor(*a, str);
   }
   if (op == "ST")
   {
@@ -499,7 +509,11 @@ static std::string exec_op(std::vector<std::string> const& w)
 #endif
         a->result = r;
       });
-    if (st == Actor::PARKED) { return "id=" + std::to_string(id) + " parked:" + a->park_reason; }
+    if (st == Actor::PARKED)
+    {
+      a->in_call_logger = g;
+      return "id=" + std::to_string(id) + " parked:" + a->park_reason;
+    }
     return finish_actor(*a, st);
   }
   if (op == "IB" || op == "FB" || op == "F" || op == "RB" || op == "RL")
@@ -508,6 +522,14 @@ static std::string exec_op(std::vector<std::string> const& w)
     int const g = std::stoi(w[2]);
     if (!need_idle(a) || !g_loggers.count(g) || !g_loggers[g]) { return "noop"; }
     LoggerT* lg = g_loggers[g];
+    if (op == "RB" || op == "RL")
+    {
+      // contract of remove_logger: no call through that logger is pending
+      for (auto const& kv : g_actors)
+      {
+        if (kv.second->alive && kv.second->st == Actor::PARKED && kv.second->in_call_logger == g) { return "noop"; }
+      }
+    }
     std::function<void()> j;
     if (op == "IB")
     {
@@ -527,7 +549,9 @@ static std::string exec_op(std::vector<std::string> const& w)
       g_loggers[g] = nullptr;
       j = [=] { FE::remove_logger(lg); a->result = "done"; };
     }
-    return finish_actor(*a, a->drive(j));
+    auto const stc = a->drive(j);
+    if (stc == Actor::PARKED) { a->in_call_logger = g; }
+    return finish_actor(*a, stc);
   }
   if (op == "CL")
   {
@@ -544,6 +568,12 @@ static std::string exec_op(std::vector<std::string> const& w)
       if (!sp) { return "noop"; }
       sinks.push_back(sp);
       sids.push_back(sid);
+    }
+    // while a call through this logger name is parked (in particular a remove_logger_blocking that has not yet
+    // invalidated it) the name is left alone: the handle obtained now could be erased under our feet
+    for (auto const& kv : g_actors)
+    {
+      if (kv.second->alive && kv.second->st == Actor::PARKED && kv.second->in_call_logger == g) { return "noop"; }
     }
     // creating a logger whose name still belongs to a removed-but-not-yet-erased logger is outside the contract
     // (create_or_get_logger asserts on it): only after remove_logger_blocking returned / the backend cleaned up
@@ -766,6 +796,7 @@ int main(int argc, char** argv)
     std::cout << line << " => " << r;
     if (!ev.empty()) { std::cout << " | " << ev; }
     std::cout << "\n";
+    std::cout.flush(); // keep the trace up to the failing operation if the real code aborts
   }
   // orderly end: stop actors that are idle; parked actors are resumed while polling until they finish
   for (int guard = 0; guard < 10000; ++guard)
